@@ -176,6 +176,9 @@ def check_random(case, ctx):
         def alloc(nbytes):
             return np.zeros(nbytes, dtype=np.uint8)
         labels.append("numpy_allocator")
+    if case.get("twin"):
+        check_twin(case, ctx, labels)
+        rd, D = _reader_for(case, ctx)
     for pl in case["plans"]:
         labs, nb = check_plan(rd, D, pl, alloc)
         labels += labs
@@ -185,6 +188,44 @@ def check_random(case, ctx):
             if _crosses(case["layout"], pl):
                 labels.append("crosses_file_boundary")
     return Info(nontrivial, tuple(labels))
+
+
+def check_twin(case, ctx, labels):
+    """Two readers on two different files of the same shape, their plans consumed in lockstep (zip): each reader must
+    deliver its own file.  Nothing in the property ties a plan to being the only one alive in the process."""
+    import os
+
+    from sigpyproc.readers import FilReader
+
+    lay = case["layout"]
+    base = ctx.fresh_dir()
+    da, db = os.path.join(base, "a"), os.path.join(base, "b")
+    os.mkdir(da)
+    os.mkdir(db)
+    pa, DA, _, _ = vs.write_layout(lay, da)
+    layb = dict(lay, data_seed=lay["data_seed"] + 5)  # same shape and depth, other samples (same seed class mod 5)
+    pb, DB, _, _ = vs.write_layout(layb, db)
+    ra, rb = FilReader(pa), FilReader(pb)
+    pl = dict(case["plans"][0], skipback=0)
+    pl.pop("abandon", None)
+    N, nchans = DA.shape
+    eff = (N - pl["start"]) if pl["nsamps"] is None else pl["nsamps"]
+    kw = {"gulp": pl["gulp"], "start": pl["start"], "nsamps": pl["nsamps"], "quiet": True, "description": "verif"}
+    pos = pl["start"]
+    try:
+        for (na, ia, xa), (nb, ib, xb) in zip(ra.read_plan(**kw), rb.read_plan(**kw)):
+            for who, D, nr, arr in (("first", DA, na, xa), ("second", DB, nb, xb)):
+                got = np.asarray(arr).reshape(-1, nchans)
+                if got.shape[0] != nr or not eq_bits(got, D[pos : pos + nr]):
+                    raise Violation("twin:block-values", f"plan={pl} N={N} nchans={nchans} nbits={lay['nbits']}: with two readers' plans consumed in lockstep, the {who} "
+                                    f"reader's block at sample {pos} is not its own file's samples [{pos},{pos + nr})")
+            pos += na
+    except Violation:
+        raise
+    except Exception as exc:  # noqa: BLE001
+        raise Violation(f"twin:raised:{type(exc).__name__}", f"plan={pl} N={N}: {exc!r}") from exc
+    require(pos == pl["start"] + eff, "twin:wrong-total", f"plan={pl} N={N}: {pos - pl['start']} samples delivered in lockstep, requested {eff}")
+    labels.append("two_plans_in_lockstep")
 
 
 def strat_random(tier):
@@ -203,7 +244,8 @@ def strat_random(tier):
                 pl["np_ints"] = True
         return {"layout": lay, "plans": plans, "np_alloc": draw(st.sampled_from([False, False, False, True])),
                 # opened by relative names, the process then moves to a directory holding same-named other files
-                "relpath": draw(st.sampled_from([False, False, False, True]))}
+                "relpath": draw(st.sampled_from([False, False, False, True])),
+                "twin": draw(st.sampled_from([False, False, False, True]))}
 
     return s()
 
